@@ -891,3 +891,73 @@ func (w *World) apAddr(addr ssa.Value) string {
 	}
 	return "*" + w.AP(addr)
 }
+
+// naturalLoop returns the innermost natural loop that contains b: its header and its blocks
+// (header included), or nil when b is in no loop.
+func naturalLoop(b *ssa.BasicBlock) (*ssa.BasicBlock, map[*ssa.BasicBlock]bool) {
+	var best *ssa.BasicBlock
+	var bestSet map[*ssa.BasicBlock]bool
+	for _, h := range b.Parent().Blocks {
+		if !h.Dominates(b) {
+			continue
+		}
+		set := map[*ssa.BasicBlock]bool{h: true}
+		var work []*ssa.BasicBlock
+		for _, p := range h.Preds {
+			if h.Dominates(p) && !set[p] {
+				set[p] = true
+				work = append(work, p)
+			}
+		}
+		if len(work) == 0 && !func() bool { // self loop
+			for _, p := range h.Preds {
+				if p == h {
+					return true
+				}
+			}
+			return false
+		}() {
+			continue
+		}
+		for len(work) > 0 {
+			x := work[len(work)-1]
+			work = work[:len(work)-1]
+			for _, p := range x.Preds {
+				if !set[p] {
+					set[p] = true
+					work = append(work, p)
+				}
+			}
+		}
+		if set[b] && (best == nil || len(set) < len(bestSet)) {
+			best, bestSet = h, set
+		}
+	}
+	return best, bestSet
+}
+
+// earlyExits lists the blocks outside the loop that are entered from a loop block other than
+// the header (break, return, goto out of the body); edges into blocks that only panic are ignored.
+func earlyExits(header *ssa.BasicBlock, body map[*ssa.BasicBlock]bool) []*ssa.BasicBlock {
+	var out []*ssa.BasicBlock
+	for _, blk := range header.Parent().Blocks {
+		if !body[blk] || blk == header {
+			continue
+		}
+		for _, s := range blk.Succs {
+			if body[s] || len(s.Instrs) == 0 {
+				continue
+			}
+			if _, isPanic := s.Instrs[len(s.Instrs)-1].(*ssa.Panic); isPanic {
+				continue
+			}
+			out = append(out, s)
+		}
+		if len(blk.Succs) == 0 {
+			if _, isRet := blk.Instrs[len(blk.Instrs)-1].(*ssa.Return); isRet {
+				out = append(out, blk)
+			}
+		}
+	}
+	return out
+}
